@@ -267,10 +267,84 @@ impl Sender {
     /// Draw and execute one scripted operation.  Returns false at end of script.
     pub fn step(&mut self, ctx: &mut Ctx, k: &Knobs, mode: AMode) -> Result<bool, Violation> {
         let prop = ctx.prop;
-        // op.kind: 0 = end, then messages, then chunk-size change
-        let kind = ctx.ch.weighted("op.kind", &[2, 12, k.setchunk_w]);
+        // op.kind: 0 = end, then messages, then chunk-size change, then (C19) AMF0 messages
+        // built as RtmpMessage values with strings / property names around the 65,535 limit
+        let kind = ctx.ch.weighted("op.kind", &[2, 12, k.setchunk_w, if mode == AMode::C19 { 2 } else { 0 }]);
         match kind {
             0 => Ok(false),
+            3 => {
+                use rml_amf0::Amf0Value;
+                use rml_rtmp::messages::RtmpMessage;
+                let len = *ctx.ch.pick("op.arg.strlen", &[65535usize, 65534, 65536, 70000, 0, 1]);
+                let in_name = ctx.ch.chance("op.arg.inname", 1, 2);
+                let as_command = ctx.ch.chance("op.arg.ascmd", 1, 2);
+                let long = "n".repeat(len);
+                let value = if in_name {
+                    if len == 0 {
+                        Amf0Value::Object(std::collections::HashMap::new())
+                    } else {
+                        let mut props = std::collections::HashMap::new();
+                        props.insert(long.clone(), Amf0Value::Number(1.0));
+                        props.insert("other".to_string(), Amf0Value::Boolean(true));
+                        Amf0Value::Object(props)
+                    }
+                } else {
+                    Amf0Value::Utf8String(long.clone())
+                };
+                let message = if as_command {
+                    RtmpMessage::Amf0Command { command_name: "cmd".to_string(), transaction_id: 1.0, command_object: Amf0Value::Null, additional_arguments: vec![value] }
+                } else {
+                    RtmpMessage::Amf0Data { values: vec![Amf0Value::Utf8String("d".to_string()), value] }
+                };
+                ctx.tr(|| format!("  op AMF0 message ({}) with a {} of {} bytes", if as_command { "command" } else { "data" }, if in_name { "property name" } else { "string" }, len));
+                ctx.ev(14, len as u64, (in_name as u64) << 1 | as_command as u64);
+                ctx.sched(0, 4, (len > 65535) as u64);
+                let ts = 7u32;
+                match message.clone().into_message_payload(RtmpTimestamp::new(ts), 1) {
+                    Err(e) => {
+                        if len <= 65535 {
+                            return Err(Violation::new(
+                                format!("{}/config/refused-expressible-string", prop),
+                                format!("into_message_payload refused a {}-byte {}: {}", len, if in_name { "property name" } else { "string" }, e),
+                            ));
+                        }
+                        ctx.probe("a.refused_long_amf0_string");
+                        ctx.tr(|| format!("    refused: {}", e));
+                        self.script.refused += 1;
+                    }
+                    Ok(payload) => {
+                        if len > 65535 {
+                            return Err(Violation::new(
+                                format!("{}/config/accepted-inexpressible-{}", prop, if in_name { "property-name" } else { "string" }),
+                                format!("a {}-byte AMF0 {} was accepted and encoded (the 16-bit length field cannot express it)", len, if in_name { "property name" } else { "string" }),
+                            ));
+                        }
+                        // an accepted message must come back equal
+                        match payload.to_rtmp_message() {
+                            Ok(back) if back == message => {}
+                            other => {
+                                return Err(Violation::new(
+                                    format!("{}/config/amf0-message-corrupted", prop),
+                                    format!("message with a {}-byte {} does not convert back to itself: {:?}", len, if in_name { "property name" } else { "string" }, other.is_ok()),
+                                ));
+                            }
+                        }
+                        ctx.probe("a.long_amf0_string_roundtrip");
+                        let m = RefMsg { type_id: payload.type_id, msid: 1, ts, payload: payload.data.to_vec() };
+                        match self.ser.serialize(&payload, false, false) {
+                            Ok(p) => {
+                                let cls = csid_for_type(m.type_id) as usize;
+                                self.last[cls] = (ts, ts.wrapping_sub(self.last[cls].0));
+                                self.push_packet(ctx, p, m, prop)?;
+                            }
+                            Err(e) => {
+                                return Err(Violation::new(format!("{}/roundtrip/refused-valid-message", prop), format!("serialize() refused {}: {}", m.brief(), e)));
+                            }
+                        }
+                    }
+                }
+                Ok(true)
+            }
             2 => {
                 let size = draw_chunk_size(ctx, k.edge_cfg);
                 let ts = ctx.ch.draw("op.arg.cts", 3) as u32 * 1000;
